@@ -139,28 +139,41 @@ fn reverse_cursive_minor_offset(
     direction: Direction,
     new_parent: usize,
 ) {
-    let chain = pos[i].attach_chain();
-    let attach_type = pos[i].attach_type();
-    if chain == 0 || attach_type & attach_type::CURSIVE == 0 {
-        return;
+    // The old chain can be as long as the buffer, so it is walked with an explicit
+    // work list instead of recursion: first down the chain, unlinking every glyph on
+    // the way, ...
+    let mut work: alloc::vec::Vec<(usize, i16, u8)> = alloc::vec::Vec::new();
+    let mut i = i;
+    loop {
+        let chain = pos[i].attach_chain();
+        let attach_type = pos[i].attach_type();
+        if chain == 0 || attach_type & attach_type::CURSIVE == 0 {
+            break;
+        }
+
+        pos[i].set_attach_chain(0);
+
+        // Stop if we see new parent in the chain.
+        let j = (i as isize + isize::from(chain)) as usize;
+        if j == new_parent {
+            break;
+        }
+
+        work.push((i, chain, attach_type));
+        i = j;
     }
 
-    pos[i].set_attach_chain(0);
+    // ... then back up, attaching every glyph to the one that used to be attached to it.
+    while let Some((i, chain, attach_type)) = work.pop() {
+        let j = (i as isize + isize::from(chain)) as usize;
 
-    // Stop if we see new parent in the chain.
-    let j = (i as isize + isize::from(chain)) as _;
-    if j == new_parent {
-        return;
+        if direction.is_horizontal() {
+            pos[j].y_offset = -pos[i].y_offset;
+        } else {
+            pos[j].x_offset = -pos[i].x_offset;
+        }
+
+        pos[j].set_attach_chain(-chain);
+        pos[j].set_attach_type(attach_type);
     }
-
-    reverse_cursive_minor_offset(pos, j, direction, new_parent);
-
-    if direction.is_horizontal() {
-        pos[j].y_offset = -pos[i].y_offset;
-    } else {
-        pos[j].x_offset = -pos[i].x_offset;
-    }
-
-    pos[j].set_attach_chain(-chain);
-    pos[j].set_attach_type(attach_type);
 }
